@@ -860,3 +860,19 @@ def np_expand_dims(ex, args, kwargs, node):
     if not isinstance(a, Arr) or axis != 0:
         raise Unsupported("np.expand_dims other than a new leading axis of an array")
     return _view_of(a, [1] + list(a.shape), lambda o: tuple(o[1:]), "[None]")
+
+
+@model("numpy.diff")
+def np_diff(ex, args, kwargs, node):
+    """np.diff(a) along the last axis (n=1): out[..., j] = a[..., j + 1] - a[..., j]"""
+    a = args[0]
+    if not isinstance(a, Arr) or len(args) > 1 or (kwargs and (kwargs.get("axis", -1) not in (-1, a.rank - 1) or set(kwargs) - {"axis"})):
+        raise Unsupported("np.diff other than the first difference of an array along its last axis")
+    if a.kind == "bool":
+        raise Unsupported("np.diff of a boolean array")
+    w = a.shape[-1]
+    ex.oblige("diff_axis", E.compare(ast.GtE(), w, 0), "np.diff: last axis length (a shorter result than 0 is impossible)", node)
+    shape = list(a.shape[:-1]) + [arith("-", w, 1) if not isinstance(w, int) else max(w - 1, 0)]
+    r = Arr.from_lambda(shape, a.kind, lambda *i: a.sel(*i[:-1], to_z3(i[-1], "int") + 1) - a.sel(*i), name="diff")
+    r.ghost.update(owner="fresh", corder=True)
+    return r
